@@ -707,9 +707,11 @@ def transfer(w, lab):
         raise KeyError(kind)
     # the bindings of a copy are arguments of that one call: the destination manager's own label table must be what it was (a rebinding that stays behind
     # makes every later load / copy_expr_from on that manager resolve the label to the rebound place)
-    for lb, r in (("f", w2.fref), (w2.uni["label"], w2.sref)):
-        if w2.m.containers.get(lb) is not r or len(w2.m.containers) != 2:
-            raise DecoyMismatch(f"after {kind} the destination manager's label table is {dict(w2.m.containers)!r}: label {lb!r} no longer names its container")
+    want_labels = {"f": w2.fref, w2.uni["label"]: w2.sref}
+    for lb in sorted(set(want_labels) | set(w2.m.containers)):
+        if w2.m.containers.get(lb) is not want_labels.get(lb):
+            raise DecoyMismatch(f"after {kind} the destination manager's label table is {dict(w2.m.containers)!r}: label {lb!r} "
+                                + ("no longer names its container" if lb in want_labels else "was added by the call"))
     w2.shadows = list(w.shadows)
     return w2
 
